@@ -68,7 +68,7 @@ def to_spherical(x, y, z) -> tuple:
     y = np.atleast_1d(y).astype(float)
     z = np.atleast_1d(z).astype(float)
     r = np.sqrt(x**2 + y**2 + z**2)
-    return (r, np.arctan2(y, x), np.sign(y) * np.arccos(x / np.sqrt(x**2 + y**2)))
+    return (r, np.arctan2(y, x), np.arccos(z / r))
 
 
 @nb.njit(fastmath=True)
